@@ -262,12 +262,13 @@ func (m *model) applyPut(key, val string, exp *time.Time, o *outcome) string {
 	return ""
 }
 
-func (m *model) applyPutMany(keys, vals []string, exp *time.Time, o *outcome) string {
+func (m *model) applyPutMany(keys, vals []string, exps []*time.Time, o *outcome) string {
 	if o.Err != "ok" {
 		return "PutMany returned " + o.Err
 	}
 	for i, k := range keys {
-		m.recs[k] = &mrec{val: vals[i], unbound: true, exp: exp}
+		// a key repeated in the batch: the last record wins
+		m.recs[k] = &mrec{val: vals[i], unbound: true, exp: exps[i]}
 	}
 	return ""
 }
